@@ -12,4 +12,4 @@ for cid in ids:
   print(r.summary())
   if r.status != 'proved' or '-v' in sys.argv:
     for m in r.obligations:
-      print('   ', m['verdict'], m['oid'], m['queries'], f"{m['time']:.2f}s", m['solvers'])
+      print('   ', m['verdict'], m['oid'], m['queries'], f"{m['time']:.2f}s", m['solvers'], m['desc'][:90])
